@@ -372,14 +372,14 @@ Qed.
 
 (* each arriving Data resolves all pending Interests it satisfies, per position *)
 Theorem acc_data_resolves_all : forall h sp k dn dd o i, spec_run sinit h = inl sp -> nth_error h k = Some (SData dn dd, o) ->
-  In i (expressed (map fst (firstn k h))) -> ~ In (s_pid i) (hist_cbs (firstn k h)) -> satisfies i dn dd = true ->
+  In i (expressed (map fst (firstn k h))) -> s_opt i = false -> ~ In (s_pid i) (hist_cbs (firstn k h)) -> satisfies i dn dd = true ->
   In (OCb (s_pid i) (RData dn dd)) o.
 Proof.
-  intros h sp k dn dd o i Hacc Hk Hi Hn Hs.
+  intros h sp k dn dd o i Hacc Hk Hi Ho Hn Hs.
   destruct (acc_at h sp k _ o Hacc Hk) as (spk & spk' & Hrun & Hstep & B & _).
   unfold spec_step in Hstep. destruct (has_panic o); [discriminate|].
   destruct (check_data_cbs (sp_pending spk) dn dd o) as [rest|] eqn:Ec; [|discriminate].
-  destruct (find (fun i0 => satisfies i0 dn dd) rest) eqn:Ef; [discriminate|].
+  destruct (find (fun i0 => negb (s_opt i0) && satisfies i0 dn dd) rest) eqn:Ef; [discriminate|].
   destruct (check_cbs_inv _ _ o _ _ (b_nodup_pend _ _ _ B) Ec) as (_ & -> & C & D).
   assert (Hp : In i (sp_pending spk)) by (apply (b_pend _ _ _ B); auto).
   destruct (in_dec Nat.eq_dec (s_pid i) (cb_pids o)) as [Y|N].
@@ -388,5 +388,5 @@ Proof.
     apply andb_true_iff in Hok. destruct Hok as (E1 & _). apply andb_true_iff in E1. destruct E1 as (E1 & E2).
     apply name_eqb_eq in E1. apply N.eqb_eq in E2. subst. exact Hx.
   - exfalso. assert (In i (minus (sp_pending spk) (cb_pids o))) by (apply in_minus; auto).
-    pose proof (find_none _ _ Ef i H). simpl in H0. congruence.
+    pose proof (find_none _ _ Ef i H). simpl in H0. rewrite Ho, Hs in H0. discriminate.
 Qed.
